@@ -73,6 +73,8 @@ TRANSLATORS = [
     ("readeruse", "readeruse", ["-repo", REPO, "-out", os.path.join(COQ, "Gen")]),
     ("posmsggen", "posmsggen", ["-repo", REPO, "-out", os.path.join(COQ, "Gen")]),
     ("posreadgen", "posreadgen", ["-repo", REPO, "-out", os.path.join(COQ, "Gen"), "-report", os.path.join(BUILD, "posreadgen_report.json")]),
+    ("nilgen", "nilgen", ["-repo", REPO, "-out", os.path.join(COQ, "Gen"), "-report", os.path.join(BUILD, "nilgen_report.json")]),
+    ("depthgen", "depthgen", ["-repo", REPO, "-out", os.path.join(COQ, "Gen"), "-report", os.path.join(BUILD, "depthgen_report.json")]),
     ("skelgen", "skelgen", ["-repo", REPO, "-out", os.path.join(COQ, "Gen"),
                             "-report", os.path.join(BUILD, "skelgen_report.json")]),
 ]
